@@ -30,12 +30,12 @@ def run(ctx, report: Report) -> None:
     imod = src.mod('__init__')
 
     # ---- R1 ----------------------------------------------------------------------------------------------
-    r1 = report.rule('C03-R1', 'module-level wrappers forward every argument (partial evaluation with a recording compile())', floor=6)
+    r1 = report.rule('C03-R1', 'module-level wrappers forward every argument (partial evaluation with a recording compile())', floor=3)
     from .sem import wrappers_table
     wrappers_table(ctx, r1)
 
     # ---- R2 ----------------------------------------------------------------------------------------------
-    r2 = report.rule('C03-R2', 'one decision procedure behind every entry point', floor=116)
+    r2 = report.rule('C03-R2', 'one decision procedure behind every entry point', floor=58)
     mmod = src.mod('css_match')
     # (a) the top-level list self.selectors is handed to match_selectors only inside CSSMatch.match
     for q, fn in mmod.functions.items():
@@ -100,7 +100,7 @@ def run(ctx, report: Report) -> None:
                          'target itself or non-descendants')
 
     # ---- R3 ----------------------------------------------------------------------------------------------
-    r3 = report.rule('C03-R3', 'guards of the match relation', floor=5)
+    r3 = report.rule('C03-R3', 'guards of the match relation', floor=2)
     _, mfn = src.func('css_match.CSSMatch.match')
     el = mfn.args.args[1].arg
     for atom, val, what in ((f'self.is_doc({el})', True, 'the document object'),
@@ -129,7 +129,7 @@ def run(ctx, report: Report) -> None:
                          f'assert_valid_input raises {t}; the documented error for a non-Tag target is TypeError')
 
     # ---- R4 ----------------------------------------------------------------------------------------------
-    r4 = report.rule('C03-R4', 'matchers are scoped on the call target and built from the same fields', floor=9)
+    r4 = report.rule('C03-R4', 'matchers are scoped on the call target and built from the same fields', floor=4)
     from .sem import iframe_policy, soupsieve_methods_table
     from ..interp import Obj
     from ..tables import el_obj
